@@ -116,6 +116,31 @@ func main() {
 		code = doReplay(o, p, *replay)
 	} else {
 		code = explore(o, p, t0, !*noEvid)
+		if code == exitPoisoned && p.Mode != "degraded" {
+			fmt.Printf("c14: the simulator cannot own this library's concurrency (%s): starting over in the degraded mode\n", poisonWhy)
+			if !o.Keep {
+				os.RemoveAll(p.Scratch)
+			}
+			p2, err := prepare(o.Repo, o.VerifDir, true)
+			if err != nil {
+				fmt.Fprintln(os.Stderr, "c14: cannot build the degraded harness:", err)
+				if p2 != nil && p2.Scratch != "" {
+					os.RemoveAll(p2.Scratch)
+				}
+				os.Exit(2)
+			}
+			p = p2
+			p.Why = poisonWhy
+			scratchRoot = p.Scratch
+			degradedMode = true
+			defaultGOMAXPROCS = 4
+			fmt.Printf("c14: DEGRADED MODE (%s): real goroutines under the race detector, failures not replayable\n", p.Why)
+			code = explore(o, p, time.Now(), !*noEvid)
+		}
+		if code == exitPoisoned {
+			fmt.Fprintln(os.Stderr, "c14: the harness could not run this library:", poisonWhy)
+			code = 2
+		}
 	}
 	if !o.Keep {
 		os.RemoveAll(p.Scratch)
@@ -161,6 +186,14 @@ func giantEveryFor(o *options) uint64 { return 0 } // bulk phases: none; the gia
 
 var degradedMode bool
 
+// exitPoisoned is what explore returns when a worker found, at run time, that the
+// simulator cannot own what the library does with goroutines or channels (a library
+// goroutine that never finishes, a send on an unbuffered channel, ...). Nothing found
+// so far is used; the whole check is run again in the degraded mode.
+const exitPoisoned = 42
+
+var poisonWhy string
+
 func planFor(o *options) tierPlan {
 	if o.Tier == "thorough" {
 		b := o.BudgetS
@@ -201,9 +234,13 @@ func explore(o *options, p *prepared, t0 time.Time, writeEvidence bool) int {
 	ev := newEvidence(o, p)
 	var findings []finding
 	var infra []string
+	poisoned := ""
 
 	collect := func(phase string, rs []*workerResult) {
 		for _, r := range rs {
+			if r.Sum != nil && r.Sum.Poison != "" && poisoned == "" {
+				poisoned = r.Sum.Poison
+			}
 			if r.Err != nil {
 				infra = append(infra, fmt.Sprintf("[%s] %v (exit %d)\n%s", phase, r.Err, r.ExitCode, tail(r.Stderr, 30)))
 			}
@@ -244,6 +281,10 @@ func explore(o *options, p *prepared, t0 time.Time, writeEvidence bool) int {
 	}
 	fmt.Printf("c14: determinism self-test: %d seeds x %d processes, result mismatches=%d, path mismatches=%d (%.1fs)\n",
 		det.Seeds, det.Processes, len(det.O4), det.PathMismatches, time.Since(t0).Seconds())
+	if poisoned != "" {
+		poisonWhy = poisoned
+		return exitPoisoned
+	}
 
 	// ---- phase 2: cold-start processes (first use of the library happens inside a simulated run) ----
 	var specs []workerSpec
@@ -311,6 +352,10 @@ func explore(o *options, p *prepared, t0 time.Time, writeEvidence bool) int {
 		fmt.Printf("c14: race build: %d runs so far (%.1fs)\n", ev.Runs, time.Since(tr).Seconds())
 	}
 
+	if poisoned != "" {
+		poisonWhy = poisoned
+		return exitPoisoned
+	}
 	ev.DistinctSigs = countSigs(p.Scratch)
 
 	// ---- verdict ----
